@@ -260,6 +260,9 @@ func (w *Worker) equal(x, y Value) *Term {
 		if !types.Identical(xv.T, yv.T) {
 			return tc.False
 		}
+		if xv.T != hashMarker && xv.T != opaqueMarker && !types.Comparable(xv.T) {
+			w.targetPanic("explicit", "runtime error: comparing uncomparable type "+xv.T.String())
+		}
 		return w.equal(xv.V, yv.V)
 	case Struct:
 		yv := y.(Struct)
